@@ -4,6 +4,9 @@ CONSTANTS
   Names = {"a", "b"}
   MaxCalls = 3
   Record = TRUE
+  Mode = "fixed"
+  Lag = FALSE
+  Sequential = FALSE
   Sample = 1
 INVARIANTS IdsIncrease IdsUnique ListExact Export
 CHECK_DEADLOCK FALSE
